@@ -51,6 +51,8 @@ type genCfg struct {
 	unspecified            bool // allow the corners the properties leave open
 	portionVars            bool
 	varBounds              bool // overdraft bounds may be arbitrary monetary expressions (front-end corpora)
+	deepInfix              bool // chains of several + / - (left-nested)
+	worldVars              bool // account variables may be valued "world" (fixed-amount sends only)
 }
 
 type gen struct {
@@ -121,7 +123,11 @@ func (g *gen) expr(t string, asset string, d int) J {
 			return eVar(pick(r, vs))
 		}
 		if g.cfg.infix && d > 0 && r.Intn(5) == 0 {
-			return eInfix(pick(r, []string{"+", "-"}), g.expr("number", "", d-1), g.expr("number", "", d-1))
+			e := eInfix(pick(r, []string{"+", "-"}), g.expr("number", "", 0), g.expr("number", "", 0))
+			for g.cfg.deepInfix && r.Intn(2) == 0 {
+				e = eInfix(pick(r, []string{"+", "-"}), e, g.expr("number", "", 0))
+			}
+			return e
 		}
 		return eNum(g.num())
 	case "portion":
@@ -145,7 +151,11 @@ func (g *gen) expr(t string, asset string, d int) J {
 			a = pick(r, g.cfg.assets)
 		}
 		if g.cfg.infix && d > 0 && r.Intn(6) == 0 {
-			return eInfix(pick(r, []string{"+", "-"}), g.expr("monetary", a, d-1), g.expr("monetary", a, d-1))
+			e := eInfix(pick(r, []string{"+", "-"}), g.expr("monetary", a, 0), g.expr("monetary", a, 0))
+			for g.cfg.deepInfix && r.Intn(2) == 0 {
+				e = eInfix(pick(r, []string{"+", "-"}), e, g.expr("monetary", a, 0))
+			}
+			return e
 		}
 		if g.cfg.mismatchRate > 0 && r.Intn(g.cfg.mismatchRate) == 0 {
 			a = pick(r, g.cfg.assets)
@@ -209,7 +219,7 @@ func (g *gen) src(asset string, d int, ctx *srcCtx, sendAll bool, capped bool) J
 			name = pick(r, c.accts)
 			e = eAcct(name)
 		}
-		if isVarWorld && !c.unspecified {
+		if isVarWorld && !c.unspecified && (sendAll || !c.worldVars) {
 			name = pick(r, c.accts)
 			e = eAcct(name)
 		}
@@ -350,6 +360,9 @@ func (g *gen) declareVars(c *Case) {
 		switch t {
 		case "account":
 			val = J{"t": "acct", "v": pick(r, append(append([]string{}, cfg.accts...), cfg.dsts...))}
+			if cfg.worldVars && r.Intn(4) == 0 {
+				val = J{"t": "acct", "v": "world"}
+			}
 		case "asset":
 			val = J{"t": "asset", "v": pick(r, cfg.assets)}
 		case "number":
@@ -534,6 +547,7 @@ func corpusCfg(name string) genCfg {
 		base.dstDepth = 1
 	case "src": // C04: rich source, plain destination
 		base.plainDst = true
+		base.worldVars = true
 		base.sendAllRate = 3
 		base.srcDepth = 3
 		base.maxVars = 2
